@@ -277,7 +277,7 @@ func pathVerdict(exp []stepExp) int {
 
 var (
 	intPool = []int{0, 1, 2, 3, 4, 7, 64, 100000, math.MaxInt32, math.MaxInt32 + 1, math.MaxInt64}
-	strPool = []string{"a", "b", "c", "", "x y", `q"t`, `b\s`, "é", "a,b}", "]{*", "$.a[1]", "\t", "0"}
+	strPool = []string{"a", "b", "c", "", "x y", `q"t`, `b\s`, "é", "a,b}", "]{*", "$.a[1]", "\t", "0", `C:\dir\`, `\`, `q"\`}
 	// keys that strconv.Quote spells with escapes JSON does not know
 	oddStrPool = []string{"\a", "\x00", "\x7f", "\xff", "\v", "\U000e0001"}
 )
